@@ -14,7 +14,7 @@ class SimWriter(io.StringIO):
     def __init__(self, disk, name):
         super().__init__()
         self.disk = disk
-        self.name = name
+        self.name = name      # absolute, normalised
         self.old = disk.durable.get(name)
         self.written = 0
         self.failed = False
@@ -74,7 +74,8 @@ class SimDisk:
         self.fault = None
 
     def open(self, filename, mode='r', encoding=None, **kwargs):
-        name = str(filename)
+        import os
+        name = os.path.abspath(str(filename))
         if 'w' in mode:
             return SimWriter(self, name)
         if name not in self.durable:
